@@ -1,1 +1,64 @@
-fn main(){}
+//! Conformance harness for signal-hook: drives the real crates (built from /repo with
+//! `--cfg sighook_verif`) and writes NDJSON traces for TLC.
+
+mod halflock;
+mod sched;
+mod trace;
+
+use std::collections::HashMap;
+
+pub struct Args {
+    kv: HashMap<String, String>,
+    flags: Vec<String>,
+}
+
+impl Args {
+    fn parse(args: &[String]) -> Args {
+        let mut kv = HashMap::new();
+        let mut flags = Vec::new();
+        let mut i = 0;
+        while i < args.len() {
+            let a = &args[i];
+            if let Some(k) = a.strip_prefix("--") {
+                if i + 1 < args.len() && !args[i + 1].starts_with("--") {
+                    kv.insert(k.to_string(), args[i + 1].clone());
+                    i += 2;
+                } else {
+                    flags.push(k.to_string());
+                    i += 1;
+                }
+            } else {
+                i += 1;
+            }
+        }
+        Args { kv, flags }
+    }
+    pub fn get(&self, k: &str) -> Option<&str> {
+        self.kv.get(k).map(|s| s.as_str())
+    }
+    pub fn num(&self, k: &str, d: usize) -> usize {
+        self.get(k).and_then(|s| s.parse().ok()).unwrap_or(d)
+    }
+    pub fn flag(&self, k: &str) -> bool {
+        self.flags.iter().any(|f| f == k)
+    }
+}
+
+fn main() {
+    let argv: Vec<String> = std::env::args().collect();
+    if argv.len() < 2 {
+        eprintln!("usage: harness <component> [options]");
+        std::process::exit(2);
+    }
+    // Panics of code under test are data, not noise on stderr.
+    std::panic::set_hook(Box::new(|_| {}));
+    let args = Args::parse(&argv[2..]);
+    let code = match argv[1].as_str() {
+        "halflock" => halflock::main(&args),
+        other => {
+            eprintln!("unknown component {}", other);
+            2
+        }
+    };
+    std::process::exit(code);
+}
